@@ -1,6 +1,7 @@
 // texelsim: deterministic simulation runner. One run == one forked child of a pristine parent image.
 #include "common.hpp"
 #include "computerPlayer.hpp"
+#include "dtm_oracle.hpp"
 #include <sys/personality.h>
 #include <sys/wait.h>
 #include <sys/stat.h>
@@ -121,6 +122,29 @@ int main(int argc, char** argv) {
     ComputerPlayer::initEngine();
     if (mode == "classes") {
         for (auto& c : allClasses()) printf("%s %s %s\n", c.name, c.property, c.kind);
+        return 0;
+    }
+    if (mode == "dtm" && argc >= 3) { // build/load oracle tables and print their statistics
+        for (int i = 2; i < argc; i++) {
+            std::vector<std::string> keys;
+            if (!strcmp(argv[i], "all3")) keys = dtm::allKeys(3);
+            else if (!strcmp(argv[i], "all4")) keys = dtm::allKeys(4);
+            else keys.push_back(argv[i]);
+            for (auto& k : keys) {
+                const dtm::Table& T = dtm::getTable(k);
+                long win = 0, loss = 0, draw = 0, ill = 0;
+                int maxW = 0, maxL = 0;
+                for (size_t j = 0; j < 2 * T.N; j++) {
+                    int8_t v = T.val[j];
+                    if (v == dtm::ILLEGAL) ill++;
+                    else if (v == 0) draw++;
+                    else if (v > 0) { win++; if (v > maxW) maxW = v; }
+                    else { loss++; if (-v - 1 > maxL) maxL = -v - 1; }
+                }
+                printf("%s: win %ld (max %d plies = mate in %d) loss %ld (max %d plies) draw %ld illegal %ld\n", k.c_str(), win, maxW,
+                       (maxW + 1) / 2, loss, maxL, draw, ill);
+            }
+        }
         return 0;
     }
     if (mode == "gen" && argc >= 4) {
